@@ -174,6 +174,13 @@ def directed_programs():
                                      A.BININT1(5), A.SETITEMS, A.NEWOBJ_EX, A.STOP)),
         ("nfkc-build-state-keys", (A.PROTO(4), g("vp_sink", "K"), A.EMPTY_TUPLE, A.NEWOBJ, A.EMPTY_DICT, A.SBU("\u00b5"), A.BININT1(1),
                                    A.SETITEM, A.BUILD, A.STOP)),
+        # nesting deep enough that a nearly exhausted stack makes a query fail - once
+        ("deep-lists-with-call", (g("vp_sink", "hit"),) + (A.EMPTY_LIST,) * 140 + (A.BININT1(1), A.APPEND) + (A.APPEND,) * 139 +
+         (A.TUPLE1, A.REDUCE, A.STOP)),
+        ("deep-lists-as-result", (g("os", "getpid"), A.EMPTY_TUPLE, A.REDUCE, A.POP) + (A.EMPTY_LIST,) * 140 + (A.BININT1(1), A.APPEND) +
+         (A.APPEND,) * 139 + (A.STOP,)),
+        ("deep-dicts-as-result", (g("vp_sink", "hit"), A.EMPTY_TUPLE, A.REDUCE, A.POP) + (A.EMPTY_DICT, A.BININT1(0)) * 120 + (A.NONE,) +
+         (A.SETITEM,) * 120 + (A.STOP,)),
         ("nonident-global", (A.SBU("not an identifier"), A.SBU("x y"), A.STACK_GLOBAL, A.STOP)),
         ("nonident-quote", (A.SBU("a'b"), A.SBU("c"), A.STACK_GLOBAL, A.EMPTY_TUPLE, A.REDUCE, A.STOP)),
         ("dotted-attr", (A.SBU("vp_sink"), A.SBU("K.method"), A.STACK_GLOBAL, A.STOP)),
